@@ -3,8 +3,12 @@
 # on the /verif copy it is started from, so it can run beside other checks (e.g. under `vp run --with-repo`).
 set -u
 V=$(cd "$(dirname "$0")" && pwd)
+if [ "$V" = /verif ]; then
+  # never let a run against a changed tree touch /verif/evidence or /verif/replay: work on a copy
+  W=/tmp/sweepverif_$$; rm -rf $W; mkdir -p $W; rsync -a --exclude .git --exclude replay /verif/ $W/; V=$W; trap "rm -rf $W" EXIT
+fi
 R=${VP_RUN_REPO:-}
-if [ -z "$R" ]; then R=/tmp/sweeprepo_$$; git clone -q /repo $R; trap "rm -rf $R" EXIT; fi
+if [ -z "$R" ]; then R=/tmp/sweeprepo_$$; git clone -q /repo $R; trap "rm -rf $R ${W:-}" EXIT; fi
 cd $V
 seeds=("$@"); [ ${#seeds[@]} -eq 0 ] && seeds=($(ls seeded | grep -v "^_"))
 for s in "${seeds[@]}"; do
